@@ -681,8 +681,12 @@ func (sema *ExprSemanticsChecker) checkArrayDeref(n *ArrayDerefNode) ExprType {
 		// For strict object at receiver of .*
 		found := false
 		for _, t := range ty.Props {
-			if _, ok := t.(*ObjectType); ok {
+			// A property of unknown type may hold an object, so it must not be the reason of the error
+			switch t.(type) {
+			case *ObjectType, AnyType:
 				found = true
+			}
+			if found {
 				break
 			}
 		}
